@@ -207,9 +207,17 @@ type frameBad struct {
 // actually present on the wire.
 func frameBadEvent(tr *vk.Trace, b frameBad, scn int) {
 	var idb []byte
-	if b.Idlen == 5 {
+	switch {
+	case b.Idlen == 5:
 		idb = fvPut(nil, -1)
-	} else {
+	case b.Idlen >= 2 && b.Idlen <= 4:
+		// a small id that the peer spelt in more bytes than needed (a legal VarInt): what counts is the room it takes
+		idb = []byte{0x85}
+		for len(idb) < b.Idlen-1 {
+			idb = append(idb, 0x80)
+		}
+		idb = append(idb, 0x00)
+	default:
 		idb = fvPut(nil, 5)
 		b.Idlen = 1
 	}
@@ -392,6 +400,13 @@ func runC07(env *vk.Env) {
 				// the same header over a stream that really holds the whole id and more than declared: the declared
 				// size is then the only thing that is wrong
 				scs = append(scs, frameScenario{Kind: "bad", Thr: v.Thr, ID: i + 500000, Bad: &frameBad{Thr: v.Thr, Plen: v.Bad.Plen, Dlen: v.Bad.Dlen, Idlen: v.Bad.Idlen, Infl: v.Bad.Dlen + v.Bad.Idlen + 3}})
+			}
+			if v.Bad.Idlen == 1 && v.Bad.Plen >= 0 && v.Bad.Plen <= 70 {
+				// the same header with the id spelt in 2..4 bytes (declared lengths shorter than the id, just enough, more)
+				for il := 2; il <= 4; il++ {
+					scs = append(scs, frameScenario{Kind: "bad", Thr: v.Thr, ID: i + 600000*il, Bad: &frameBad{Thr: v.Thr, Plen: v.Bad.Plen, Dlen: v.Bad.Dlen, Idlen: il, Infl: v.Bad.Infl}})
+				}
+				env.Distinct(fmt.Sprintf("bad/thr%d/padded-id", v.Thr))
 			}
 			env.Distinct(fmt.Sprintf("bad/thr%d/%s", v.Thr, v.Bad.Verdict))
 			continue
